@@ -12,7 +12,7 @@ import (
 )
 
 var profile = storesim.Profile{
-	Name: "C09", WWrite: 22, WBig: 8, WSnapshot: 16, WCompact: 20, WCompactFiles: 12, WBurst: 8,
+	Name: "C09", WWrite: 22, WBig: 8, WSnapshot: 16, WCompact: 20, WCompactFiles: 12, WBurst: 8, WStagger: 8,
 	WDelete: 8, WDropSeries: 1, WReopen: 3, WRead: 4,
 	Windows: true, Faults: true, CheckReads: true, CheckFiles: true, MaxOps: 40, MaxShards: 1,
 }
